@@ -11,9 +11,9 @@ import (
 
 func init() {
 	register(&propDef{
-		id: "C39",
+		id:      "C39",
 		explain: "Structural necessary conditions of 'every child the prefork master starts is signalled, killed after the grace period if needed, and reaped before prefork returns': (R1) the deferred teardown is registered before the first child is spawned; (R2) typestate of every spawned child: on every path from a successful spawn to a return of prefork, to the next spawn, or to a user hook (which may fail or panic), the child has been recorded in the table the teardown iterates over and its Wait goroutine has been started under the WaitGroup the teardown waits on - a child that is recorded but not waited for is signalled but never reaped and is not covered by the kill fallback; (R3) the teardown passes, in this order on every path: cancel, a termination signal to each recorded child, a wait bounded by the grace timer, then kill of each child and an unbounded wait - or returns early only when the bounded wait saw all children exit; (R4) the supervision loop counts every reported exit and returns ErrOverRecovery under a comparison of that count with RecoverThreshold; each replacement goes through the same spawn typestate. Not decided: operating-system process behaviour, signal delivery, timing.",
-		run: runC39,
+		run:     runC39,
 	})
 }
 
